@@ -484,6 +484,9 @@ func (g *gen) sPcall(fc *fctx, x bool) []Stmt {
 	if !x && g.feat("closure") && g.feat("error") && g.ch(8) == 0 {
 		return g.sRetry(fc)
 	}
+	if !x && g.feat("error") && g.ch(10) == 0 {
+		return g.sRethrow(fc)
+	}
 	var out []Stmt
 	var fname string
 	var sig *fnSig
@@ -509,7 +512,16 @@ func (g *gen) sPcall(fc *fctx, x bool) []Stmt {
 			&Call{Fn: Var{"emit"}, Args: []Expr{Str{hn}, Var{ep}, Bin{">=", Bin{"-", Var{dn}, Var{d0}}, Num{2}}}},
 		}
 		var hret Expr = Var{ep}
-		switch g.ch(4) {
+		noResult := false
+		switch g.ch(6) {
+		case 4:
+			// the handler returns nil: that is what the caller receives
+			g.use("handler_returns_nil")
+			hret = Nil{}
+		case 5:
+			// the handler returns nothing at all
+			g.use("handler_returns_nothing")
+			noResult = true
 		case 0:
 			hret = Str{"H" + hn}
 		case 1:
@@ -519,7 +531,11 @@ func (g *gen) sPcall(fc *fctx, x bool) []Stmt {
 			g.use("handler_may_fail")
 			hret = Bin{"..", Str{"H."}, Var{ep}}
 		}
-		hbody = append(hbody, &Return{Exprs: []Expr{hret}})
+		if noResult {
+			hbody = append(hbody, &Return{})
+		} else {
+			hbody = append(hbody, &Return{Exprs: []Expr{hret}})
+		}
 		hd := &FuncDef{ID: g.prog.NFuncs, Params: []string{ep}, Body: hbody}
 		xcallee := g.goCallee("xpcall", &out)
 		out = append(out,
@@ -1228,6 +1244,26 @@ func (g *gen) yieldStmt(fc *fctx) []Stmt {
 // closures over its locals were open (a retry loop). The second activation must get fresh variables, shared with
 // its own closures only; a closure that escaped from the failed activation keeps its own. In one case in two the
 // whole thing runs inside a fresh coroutine, where nothing else holds an open upvalue.
+// sRethrow: a caught message is raised again; it gains a second position prefix (the property: a string raised at
+// level 1 from Lua code gains the position prefix - also a string that already starts with one).
+func (g *gen) sRethrow(fc *fctx) []Stmt {
+	g.use("rethrow_a_caught_message")
+	g.cost(25)
+	in, ok, e, ok2, e2 := g.fresh("bf"), g.fresh("ok"), g.fresh("e"), g.fresh("ok"), g.fresh("e")
+	g.prog.NFuncs++
+	inner := &FuncDef{ID: g.prog.NFuncs, Body: []Stmt{&Call{Fn: Var{"error"}, Args: []Expr{Str{"inner"}}}}}
+	g.prog.NFuncs++
+	outer := &FuncDef{ID: g.prog.NFuncs, Body: []Stmt{
+		&Local{Names: []string{in}, Exprs: []Expr{Func{inner}}},
+		&Call{Names: []string{ok, e}, Fn: Var{"pcall"}, Args: []Expr{Var{in}}},
+		&Call{Fn: Var{"error"}, Args: []Expr{Var{e}}}}}
+	of := g.fresh("bf")
+	return []Stmt{&Do{Body: []Stmt{
+		&Local{Names: []string{of}, Exprs: []Expr{Func{outer}}},
+		&Call{Names: []string{ok2, e2}, Fn: Var{"pcall"}, Args: []Expr{Var{of}}},
+		&Call{Fn: Var{"emit"}, Args: []Expr{Str{"rethrow"}, Var{ok2}, Var{e2}}}}}}
+}
+
 func (g *gen) sRetry(fc *fctx) []Stmt {
 	g.use("retry_same_registers")
 	g.cost(60)
